@@ -69,7 +69,7 @@ def judge(ctx, t, v, spelling=None):
         sig = 'C10|kind-confusion|%s|%s-read-as-%s' % (t[0], k, bk) if bk != k else 'C10|read-back-differs|%s|%s' % (t[0], k)
         return ctx.violation(sig, 'wrote %r read %r' % (lit, back.value), case)
     # blind_unpack of the raw optimized bytes, where the form is self-describing (22-byte addresses, tagged keys)
-    if t[0] in ('address', 'key') and not (t[0] == 'address' and v[1]):
+    if t[0] in ('address', 'key', 'signature') and not (t[0] == 'address' and v[1]):
         from pytezos.michelson.micheline import blind_unpack
         raw = bytes.fromhex(opt['bytes'])
         try:
@@ -78,7 +78,7 @@ def judge(ctx, t, v, spelling=None):
             s = e
         ctx.count('blind_unpack')
         exp = P.render(v, t, 'readable')['string']
-        if isinstance(s, str) and s != exp and s[:3] in ('tz1', 'tz2', 'tz3', 'tz4', 'KT1', 'sr1', 'txr', 'edp', 'spp', 'p2p', 'BLp'):
+        if isinstance(s, str) and s != exp and s[:3] in ('tz1', 'tz2', 'tz3', 'tz4', 'KT1', 'sr1', 'txr', 'edp', 'spp', 'p2p', 'BLp', 'sig', 'BLs'):
             ctx.violation('C10|blind-unpack-kind-confusion|%s|%s' % (t[0], k), 'bytes %s read as %s, written as %s' % (raw.hex(), s, exp), case)
 
 
@@ -90,7 +90,7 @@ def run(ctx):
                 'compared with the model bytes and read back; distinct by (type, value, spelling)')
     ds = digests()
     i = 0
-    eps = ['', 'default', 'a', 'do', 'transfer_tokens', 'x' * 31, 'A', '_', 'e.f', 'root']
+    eps = ['', 'default', 'a', 'do', 'transfer_tokens', 'x' * 31, 'A', '_', 'e.f', 'root', 'default_admin', 'defaults', 'xdefault', 'Default']
     for d in ds + [G.rbytes(rng, 20) for _ in range(ctx.pick(20, 3000))]:
         i += 1
         if not ctx.mine(i):
@@ -112,6 +112,21 @@ def run(ctx):
             p = rng.choice(['edsig', 'spsig', 'p2sig'])
             judge(ctx, T.SIGNATURE, s, {'string': B.encode(s, p)})
         judge(ctx, T.CHAIN_ID, G.gen_value(rng, T.CHAIN_ID))
+    # keys and signatures whose leading bytes look like a 22-byte address followed by a printable entrypoint name
+    def texty(n):
+        return bytes(rng.choice(b'abcdefghijklmnopqrstuvwxyz_0123456789') for _ in range(n))
+    for j in range(ctx.pick(40, 2000) // ctx.nshards):
+        d = rng.choice(ds + [G.rbytes(rng, 20)])
+        lookalikes = [bytes([0, rng.randrange(4)]) + d] + [bytes([k]) + d + b'\x00' for k in (1, 2, 3)]
+        for head in lookalikes:
+            tag = head[0]
+            klen = 1 + P.KEY_LEN[tag]
+            ctx.count('address_lookalike_keys')
+            judge(ctx, T.KEY, head + texty(klen - 22))
+            if tag == 0:
+                for n in (64, 96):
+                    ctx.count('address_lookalike_signatures')
+                    judge(ctx, T.SIGNATURE, head + texty(n - 22))
     # tx rollup l2 address type: intrinsic round trip only
     for d in ds[:4]:
         try:
